@@ -275,14 +275,14 @@ func init() {
 	vRegister(&vCheck{
 		id: "C22", level: "fault_enumeration", flavour: "vtime",
 		shards: func(string) int { return 16 },
-		rule: "every request history up to depth 3 (thorough 4) over {WRITE off in {0,2} x len in {1,3} x stable in {UNSTABLE,DATA_SYNC,FILE_SYNC}, COMMIT, SETATTR size in {0,1,5}, CREATE of the existing name, UpdatePolicyOptions, UpdateTuningOptions} on one file; the event stream (backend WriteAt/Truncate/Sync calls with their payload, and replies) is cut at every crash point; for every subset of the not-yet-synced data writes of the prefix the durable file image is computed and compared with the image that keeps every write whose request was acknowledged FILE_SYNC or is covered by an acknowledged later COMMIT. Non-trivial = (history, crash point, non-empty dropped subset). Write verifiers of all WRITE/COMMIT replies of an instance must be identical; two instances created 1 ns apart must differ.",
+		rule: "every request history up to depth 4 (thorough 5) over {WRITE off in {0,2} x len in {1,3} x stable in {UNSTABLE,DATA_SYNC,FILE_SYNC}, COMMIT, SETATTR size in {0,1,5}, CREATE of the existing name, UpdatePolicyOptions, UpdateTuningOptions} on one file; the event stream (backend WriteAt/Truncate/Sync calls with their payload, and replies) is cut at every crash point; for every subset of the not-yet-synced data writes of the prefix the durable file image is computed and compared with the image that keeps every write whose request was acknowledged FILE_SYNC or is covered by an acknowledged later COMMIT. Non-trivial = (history, crash point, non-empty dropped subset). Write verifiers of all WRITE/COMMIT replies of an instance must be identical; two instances created 1 ns apart must differ.",
 		assumptions: []string{"crash model: data written through a file handle becomes durable at File.Sync on that path; truncation and namespace operations are durable immediately (journalled metadata)",
 			"the clock advances between two server constructions"},
 		run: func(c *vCtx) {
 			ops := c22Alphabet()
-			depth := 3
+			depth := 4
 			if c.thorough() {
-				depth = 4
+				depth = 5
 			}
 			idx := 0
 			var rec func(h []c22Op)
